@@ -60,7 +60,9 @@ func findPending(c *core.Ctx) *pendingFacts {
 		case "Swap", "Store":
 			p.setFns[op.Fn] = true
 		case "Add", "CompareAndSwap":
-			p.takeFns[op.Fn] = true
+			if !casRetryLoop(op.Fn, p.field) {
+				p.takeFns[op.Fn] = true
+			}
 		case "Load":
 			p.loadFns[op.Fn] = true
 		}
@@ -183,6 +185,12 @@ func c02(c *core.Ctx, r *core.Report) {
 			}
 			if hasStore {
 				r.Violation(key+"#store", an.Pos(c, ops[0].Call), "plain Store on the pending counter (%v): what it overwrites is neither started nor reported dropped", names)
+				continue
+			}
+			if hasLoad && hasWrite && casRetryLoop(fn, pf.field) {
+				// `for { cur := Load(); if CompareAndSwap(cur, f(cur)) { return } }`: the write takes effect only when nobody
+				// acted since the Load — one atomic read-modify-write, retried until it applies
+				r.OK(key+"#cas-loop", an.Pos(c, ops[0].Call), "compare-and-swap retry loop: a single atomic read-modify-write on the pending counter")
 				continue
 			}
 			if hasLoad && hasWrite {
@@ -338,6 +346,19 @@ func c02(c *core.Ctx, r *core.Report) {
 			if !okShape {
 				r.Violation(key, an.Pos(c, call), "the number of reported drops is not the Swap result: %s", why)
 				continue
+			}
+			// nothing superseded on some path (work queued behind the backlog instead): zero drops there
+			if ph, isPhi := bound.(*ssa.Phi); isPhi {
+				var nz []ssa.Value
+				for _, e := range ph.Edges {
+					if k, isK := e.(*ssa.Const); isK && k.Value != nil && k.Int64() == 0 {
+						continue
+					}
+					nz = append(nz, e)
+				}
+				if len(nz) == 1 {
+					bound = stripAllocs(nz[0])
+				}
 			}
 			// the bound is the Swap result, directly or as a parameter fed with it at every call site
 			if isSwapResult(pf, bound, 3) {
@@ -566,7 +587,8 @@ func c02(c *core.Ctx, r *core.Report) {
 						why = "drops are reported only when the limit IS reached"
 						continue
 					}
-					if setCall != nil && !an.Dominates(setCall, gc) {
+					// the test follows the Swap on every path that made one (the Swap may sit in one branch of a mode switch)
+					if setCall != nil && !an.Dominates(setCall, gc) && !(an.ReachableFrom(setCall, gc) && !an.ReachableFrom(gc, setCall)) {
 						why = "the limit test at " + an.Pos(c, gc) + " is evaluated before the Swap at " + an.Pos(c, setCall) + ": the limit can be reached in between"
 						continue
 					}
@@ -693,4 +715,48 @@ func isLimitPredicate(g, lim *ssa.Function) bool {
 		}
 	}
 	return len(an.Returns(g)) > 0
+}
+
+// casRetryLoop: fn's only operations on the counter are a Load and a CompareAndSwap whose expected value is that
+// Load's result, in a loop that is left only when the CompareAndSwap succeeded.
+func casRetryLoop(fn *ssa.Function, fld *types.Var) bool {
+	var load, cas ssa.CallInstruction
+	n := 0
+	for _, op := range an.AtomicOps([]*ssa.Function{fn}) {
+		if !an.SameField(op.Field, fld) {
+			continue
+		}
+		n++
+		switch op.Op {
+		case "Load":
+			load = op.Call
+		case "CompareAndSwap":
+			cas = op.Call
+		}
+	}
+	if n != 2 || load == nil || cas == nil {
+		return false
+	}
+	lv, _ := load.(ssa.Value)
+	cv, _ := cas.(ssa.Value)
+	if lv == nil || cv == nil || an.Strip(cas.Common().Args[1]) != lv {
+		return false
+	}
+	loop, _ := an.NaturalLoopOf(cas.Block())
+	if loop == nil || !loop[load.Block()] || !an.Dominates(load, cas) {
+		return false
+	}
+	// every way out of the loop is the success branch of the CompareAndSwap
+	for b := range loop {
+		for si, sc := range b.Succs {
+			if loop[sc] {
+				continue
+			}
+			iff, isIf := b.Instrs[len(b.Instrs)-1].(*ssa.If)
+			if !isIf || an.Strip(iff.Cond) != cv || si != 0 {
+				return false
+			}
+		}
+	}
+	return true
 }
